@@ -164,6 +164,13 @@ def mk_bytearray(b):
     return bytearray(b)
 
 
+class _SilentService(sim.Service):
+    """a service that never answers the OPEN"""
+
+    def on_open(self, s):
+        pass
+
+
 class Std:
     """A reactive device with symbolic content: shell outputs, a sync file system, symbolic remote ids."""
 
@@ -195,6 +202,8 @@ class Std:
                 ctx.fail('OPEN destination is NUL-terminated', detail=repr(d))
             d = d.rstrip(b'\0')
             stream.dest_name = d
+            if d in getattr(self, 'silent_dests', ()):
+                return _SilentService()
             if d == b'sync:':
                 svc = sim.SyncService(self.fs, packetize=self.packetize, fail=self.fail, bad_id=self.bad_id)
                 self.sync_services.append(svc)
